@@ -6,10 +6,10 @@ cd "$(dirname "$(readlink -f "$0")")/.."
 D=$(mktemp -d /tmp/coqchk.XXXX)
 export VERIF_REPO=${VERIF_REPO:-/repo}
 ( cd $D && PYTHONPATH=/repo/src /venv/bin/python $OLDPWD/tools/gen_tables.py $D/Tables.v >/dev/null && coqc -R $OLDPWD/coq PyRtcm -R $D PyRtcmGen Tables.v )
-for k in sock:SrcOSock reader:SrcOReader msg:SrcOMsg msgdec:SrcOMsgDec helpers:SrcOHelpers; do /venv/bin/python tools/gen_src2.py $D/${k#*:}.v ${k%%:*} >/dev/null; (cd $D && coqc -R $OLDPWD/coq PyRtcm -R $D PyRtcmGen ${k#*:}.v); done
+for k in sock:SrcOSock reader:SrcOReader msg:SrcOMsg msgdec:SrcOMsgDec helpers:SrcOHelpers arr:SrcOArr arr2:SrcOArr2; do /venv/bin/python tools/gen_src2.py $D/${k#*:}.v ${k%%:*} >/dev/null; (cd $D && coqc -R $OLDPWD/coq PyRtcm -R $D PyRtcmGen ${k#*:}.v); done
 /venv/bin/python tools/gen_src.py $D/Src.v >/dev/null; (cd $D && coqc -R $OLDPWD/coq PyRtcm -R $D PyRtcmGen Src.v)
 MODS=""
-for f in Src_inst SrcSock_inst SrcReader_inst SrcReaderIter_inst SrcReader_tables_inst SrcMsg_inst SrcMsg_tables_inst SrcHelpers_inst SrcMsgDecSingle_inst SrcMsgDecWalk_inst SrcMsgDecTop_inst SrcMsgDec_inst SrcMsgDec_tables_inst C10_len_inst; do
+for f in Src_inst SrcSock_inst SrcReader_inst SrcReaderIter_inst SrcReader_tables_inst SrcMsg_inst SrcMsg_tables_inst SrcHelpers_inst SrcArr_inst SrcArr_tables_inst SrcArr2_inst SrcArr2_tables_inst SrcMsgDecSingle_inst SrcMsgDecWalk_inst SrcMsgDecTop_inst SrcMsgDec_inst SrcMsgDec_tables_inst C10_len_inst; do
   cp run/$f.v $D/ && (cd $D && timeout 1200 coqc -R $OLDPWD/coq PyRtcm -R $D PyRtcmGen -w -notation-overridden $f.v > /dev/null 2>&1) && MODS="$MODS PyRtcmGen.$f"
 done
 PROPS=$(ls coq/Properties/*.v | sed 's#coq/Properties/\(.*\)\.v#PyRtcm.Properties.\1#')
